@@ -74,7 +74,7 @@ pub fn mag_dataset_segments<M: MomDump>(r: &Result<Result<MoyoMagneticDataset<M>
     }
 }
 
-pub fn run_mag_dataset<M: MomDump + std::panic::RefUnwindSafe + 'static>(
+pub fn run_mag_dataset<M: MomDump + std::panic::RefUnwindSafe + std::panic::UnwindSafe + 'static>(
     c: &MagCrystal,
     symprec: f64,
     mag_symprec: Option<f64>,
